@@ -169,8 +169,16 @@ func c05NewWorld(t *testing.T, ns string) *c05World {
 						made = name + "@" + w.lastFwd
 					}
 					ro := resp.IsEdns0()
-					ro.Option = append(ro.Option, &dns.EDNS0_SUBNET{Code: dns.EDNS0SUBNET, Family: s.Family,
-						SourceNetmask: s.SourceNetmask, SourceScope: scope, Address: s.Address})
+					echo := &dns.EDNS0_SUBNET{Code: dns.EDNS0SUBNET, Family: s.Family,
+						SourceNetmask: s.SourceNetmask, SourceScope: scope, Address: s.Address}
+					if strings.Contains(name, ".be.") && s.SourceNetmask > 0 {
+						// an upstream that breaks the protocol: its answer does depend on the subnet, but the
+						// option it echoes is malformed (address bits set beyond the prefix)
+						b := append([]byte{}, s.Address...)
+						b[len(b)-1] |= 1
+						echo.Address = b
+					}
+					ro.Option = append(ro.Option, echo)
 				}
 			}
 		}
@@ -265,7 +273,7 @@ func (w *c05World) ask(t *testing.T, q c05Query, id int, beh int) c05Event {
 	ev := c05Event{Ev: "Query", ID: id, Beh: beh, Opt: q.opt, OptSub: "none", OptLoc: "unknown", OptFam: "none",
 		Client: c05Client{Addr: q.client.String(), Fam: c05Fam(q.client), Loc: c05Loc(q.client)},
 		Q: strings.ToLower(q.name), Scoped: strings.HasPrefix(strings.ToLower(q.name), "s."),
-		ExpRc: map[bool]int{true: dns.RcodeNameError, false: dns.RcodeSuccess}[strings.Contains(strings.ToLower(q.name), ".nx")], Fwd: "none", Content: "none",
+		ExpRc: c05ExpRc(strings.ToLower(q.name)), Fwd: "none", Content: "none",
 		EchoAddr: "none", OptAddr: "none", Geo: map[string]string{}}
 	if q.opt != "absent" {
 		req.SetEdns0(1232, false)
@@ -284,6 +292,10 @@ func (w *c05World) ask(t *testing.T, q c05Query, id int, beh int) c05Event {
 				if fam == 2 {
 					e.SourceNetmask = 129
 				}
+			case 3:
+				// FAMILY 0 with SOURCE PREFIX-LENGTH 0 and no address (what `dig +subnet=0` sends): not an
+				// address family the server knows
+				e.Family, e.SourceNetmask, e.Address = 0, 0, nil
 			default: // bits beyond the prefix
 				b := q.sub.Addr().AsSlice()
 				b[len(b)-1] |= 1
@@ -363,7 +375,7 @@ func TestVerifC05(t *testing.T) {
 		w := c05NewWorld(t, fmt.Sprintf("c05_%d", beh))
 		out.Emit(c05Event{Ev: "Reset", Beh: beh, Geo: geo})
 		names := []string{fmt.Sprintf("s.n%d.example.", rng.Intn(2)), fmt.Sprintf("u.n%d.example.", rng.Intn(2)), "s.shared.example.",
-			"s.nx.example.", "u.nx.example."}
+			"s.nx.example.", "u.nx.example.", "s.be.example."}
 		steps := 8 + rng.Intn(24)
 		for i := 0; i < steps; i++ {
 			q := c05Query{client: clients[rng.Intn(len(clients))], name: names[rng.Intn(len(names))]}
@@ -383,10 +395,23 @@ func TestVerifC05(t *testing.T) {
 					q.sub = netip.MustParsePrefix("::/0")
 				}
 			default:
-				q.opt, q.sub, q.bad = "malformed", subs[rng.Intn(len(subs))], rng.Intn(3)
+				q.opt, q.sub, q.bad = "malformed", subs[rng.Intn(len(subs))], rng.Intn(4)
 			}
 			id++
 			out.Emit(w.ask(t, q, id, beh))
 		}
+	}
+}
+
+// c05ExpRc: the rcode the upstream gives the name; 99 where the upstream breaks the protocol (any
+// outcome is admitted, but never an answer made for somebody else's subnet).
+func c05ExpRc(name string) int {
+	switch {
+	case strings.Contains(name, ".be."):
+		return 99
+	case strings.Contains(name, ".nx"):
+		return dns.RcodeNameError
+	default:
+		return dns.RcodeSuccess
 	}
 }
